@@ -1,6 +1,7 @@
 import MM.Engine.Basic
 import MM.Model.C03
 import MM.Model.C03Crypto
+import MM.Model.C04Hs
 
 /-
   Engine c03: byte-level model of DeriveSessionKey (salt = be64 req ‖ iPub ‖ rPub, info string,
@@ -50,14 +51,22 @@ def stepLine (line : String) : String :=
         if kI = kR then "ok " ++ hexOfBytes kI else "mismatch " ++ hexOfBytes kI ++ " " ++ hexOfBytes kR
       | _, _ => "err"
     | _, _, _ => "bad-op"
+  | ["dhkey", priv, remote, req] =>
+    -- responder call site on a received key: refused by ComputeECDH, or a key from a NON-zero secret
+    match key32 priv, key32 remote, req.toNat? with
+    | some priv, some remote, some req =>
+      match computeECDH x25519 priv remote with
+      | some s => "key " ++ hexOfBytes (deriveKey s req remote (x25519 priv basePoint)) ++ " secret " ++ hexOfBytes s
+      | none => "err"
+    | _, _, _ => "bad-op"
   | ["tunnel", kd, p] =>
     -- C03_agree: the two call sites of every kind derive the same key, so the tunnel carries the
     -- payload there and back (same answer format as engine c04's mesh op)
     match (if p = "-" then some [] else bytesOfHex p) with
     | some bs =>
-      if kd = "file" ∨ kd = "shell" then "ok echo 1 leak 0 seq 1 1"
+      if kd = "file" ∨ kd = "shell" then "ok echo 1 leak 0 seq 1 1 zk 0 ua 0"
       else if kd = "tcp" ∨ kd = "udp" ∨ kd = "fwd" then
-        s!"ok echo 1 leak 0 up {bs.length} 1 down {bs.length} 1"
+        s!"ok echo 1 leak 0 up {bs.length} 1 down {bs.length} 1 zk 0 ua 0"
       else "bad-op"
     | none => "bad-op"
   | _ => "bad-op"
@@ -67,6 +76,8 @@ def stepLine (line : String) : String :=
 def spec (op out : String) : String :=
   if out.startsWith "panic" ∨ out.startsWith "crash" then "fail crashed"
   else match tokens op, tokens out with
+    | "dhkey" :: _, ["key", _, "secret", s] =>
+      if s = hexOfBytes zero32 then "fail key-derived-from-all-zero-secret" else "ok"
     | "tunnel" :: _, "ok" :: "echo" :: e :: _ => if e = "1" then "ok" else "fail tunnel-ends-disagree"
     | "tunnel" :: _, "bad-op" :: _ => "ok"
     | "tunnel" :: _, _ => "fail tunnel-ends-disagree (tunnel did not come up)"
@@ -85,9 +96,16 @@ def spec (op out : String) : String :=
 
 def main (args : List String) : IO Unit :=
   match args with
-  | ["spec"] => runPure (fun l => match l.splitOn "\t" with
-      | [op, out] => spec op out
-      | _ => "bad-op")
-  | _ => runPure stepLine
+  | ["spec"] => runLines ({} : C04Hs.Spec) (fun st l => match l.splitOn "\t" with
+      | [op, out] =>
+        if (tokens op).head? = some "hs" then C04Hs.spec st (tokens op) (tokens out)
+        else if (tokens op).head? = some "reset" then ({}, "ok")
+        else (st, spec op out)
+      | _ => (st, "bad-op"))
+  | _ => runLines ({} : C04Hs.St) (fun st l =>
+      match tokens l with
+      | "hs" :: _ => C04Hs.step st (tokens l)
+      | ["reset"] => ({}, "ok")
+      | _ => (st, stepLine l))
 
 end MM.Engine.C03
